@@ -40,6 +40,8 @@ type unitResult struct {
 	run       *Run
 	prog      *Program
 	stale     string
+	staleWB   string
+	skipped   []string
 	loadErr   error
 	jobs      []*Job
 	loadS     float64
@@ -78,6 +80,24 @@ func exploreUnit(o *checkOpts, unit *CheckSpec, patches []SourcePatch, dumpDir s
 		return ur
 	}
 	prog, err := loadProgram(o.repo, unit, ov)
+	if se, ok := err.(*staleError); ok && len(unit.WhiteboxFiles) > 0 {
+		// a white-box harness no longer type-checks against the current tree
+		// (a refactoring): drop it and let the exported-API harnesses decide
+		ur.staleWB = firstLine(se.msg)
+		reduced := *unit
+		reduced.HarnessFiles = nil
+		for _, h := range unit.HarnessFiles {
+			if !contains(unit.WhiteboxFiles, h) {
+				reduced.HarnessFiles = append(reduced.HarnessFiles, h)
+			}
+		}
+		ov, err = buildOverlay(o.repo, o.verif, &reduced, patches, false)
+		if err == nil {
+			prog, err = loadProgram(o.repo, &reduced, ov)
+		}
+		ur.unit = &reduced
+		unit = &reduced
+	}
 	if err != nil {
 		if se, ok := err.(*staleError); ok {
 			ur.stale = se.msg
@@ -88,7 +108,28 @@ func exploreUnit(o *checkOpts, unit *CheckSpec, patches []SourcePatch, dumpDir s
 	}
 	ur.prog = prog
 	ur.loadS = time.Since(t0).Seconds()
-	jobs, err := expandJobs(prog, unit.Jobs[o.tier])
+	specs := unit.Jobs[o.tier]
+	if ur.staleWB != "" {
+		var keep []JobSpec
+		for _, js := range specs {
+			if prog.target.Func(js.Entry) != nil {
+				keep = append(keep, js)
+			} else {
+				ur.skipped = append(ur.skipped, js.Entry)
+			}
+		}
+		specs = keep
+		var cov []string
+		reduced := *unit
+		for _, c := range unit.RequiredCover {
+			cov = append(cov, c)
+		}
+		reduced.RequiredCover = nil // labels of skipped harnesses cannot be required
+		unit = &reduced
+		ur.unit = &reduced
+		_ = cov
+	}
+	jobs, err := expandJobs(prog, specs)
 	if err != nil {
 		if se, ok := err.(*staleError); ok {
 			ur.stale = se.msg
@@ -431,6 +472,10 @@ func runCheck(o *checkOpts, spec *CheckSpec, doSelftest bool) int {
 	// stale harnesses / vacuity
 	allStale := true
 	for _, ur := range results {
+		if ur.staleWB != "" {
+			ev.stale = append(ev.stale, fmt.Sprintf("%s: white-box harness dropped (%s); skipped entries %v", ur.unit.Package, ur.staleWB, ur.skipped))
+			fmt.Printf("STALE-WHITEBOX property=%s package=%s skipped=%v: %s\n", prop, ur.unit.Package, ur.skipped, ur.staleWB)
+		}
 		if ur.stale != "" {
 			ev.stale = append(ev.stale, ur.unit.Package+": "+firstLine(ur.stale))
 			fmt.Printf("STALE-HARNESS property=%s package=%s: %s\n", prop, ur.unit.Package, firstLine(ur.stale))
